@@ -4,9 +4,14 @@
 (*  RT    t, n, v, b, v2, err : DataType.Bytes(v, n) = b, DataType.GoValue(b) = v2                        *)
 (*  Dec   t, b, v, err        : DataType.GoValue(b) = v for bytes made by the harness (a server's bytes)  *)
 (*  Pkg   t, n, prec, scale, v, w, pb, r, v2 : the value behind its format in a PARAMFMT / PARAMS pair:   *)
-(*        written by the library (pb = the PARAMS package), read back by the library                      *)
+(*        written by the library (pb = the PARAMS package), read back by the library; client = TRUE: the  *)
+(*        format is the client's own (LookupFieldFmtData), written and read back by the library as well   *)
 (*  Cal   fn, v, b            : the calendar helpers of asetime on a civil date-time / a microsecond count *)
-(*  Tab   t, size, lb         : ByteSize / LengthBytes of the data type                                    *)
+(*  Tab   t, size, lb, nt     : ByteSize / LengthBytes / NullableType of the data type                     *)
+(*  Rows  t, row, vs, v2s, r  : several ROW (PARAMS) packages behind one ROWFMT2 (PARAMFMT), read one after  *)
+(*        the other with the channel's chaining; the values are collected when all have been read          *)
+(*  NullBack t, b, err       : GoValue(zero length) handed back to Bytes                                   *)
+(*  XRT   t, nt, v, b, v2, err: Bytes as the fixed-length type t, GoValue as its nullable variant nt       *)
 (* JUDGE = C04: the round trips return the value (Same); JUDGE = C05: the bytes are the TDS layout (Rel), *)
 (* in both directions, and the calendar helpers agree with the calendar of the specification.            *)
 EXTENDS TraceBase, DataTypes
@@ -45,11 +50,25 @@ T_Pkg == /\ IsEvent("Pkg") /\ E.t \in Types /\ E.w = "ok" /\ E.r = "ok"
 
 \* asetime: microseconds since 0000-01-01 (the count BIGDATETIME carries), as 8 little-endian bytes
 CalRel(v, b) == v.k = "tm" /\ ValidTm(v) /\ v.ns % 1000 = 0 /\ b = Micros(Days0000(v), Sod(v), Us(v))
+\* DurationFromTime: microseconds since midnight
+TodRel(v, b) == v.k = "tm" /\ ValidTm(v) /\ v.ns % 1000 = 0 /\ b = Micros(0, Sod(v), Us(v))
 T_Cal == /\ IsEvent("Cal")
-         /\ (J05 => E.err = "" /\ CalRel(E.v, E.b))
+         /\ (J05 => E.err = "" /\ IF E.fn = "DFT" THEN TodRel(E.v, E.b) ELSE CalRel(E.v, E.b))
 T_Tab == /\ IsEvent("Tab")
-         /\ (J05 /\ E.t \in Types => E.size = TypeTable[E.t].size /\ E.lb = TypeTable[E.t].lb)
-Next == T_Reset \/ T_RT \/ T_Dec \/ T_Pkg \/ T_Cal \/ T_Tab
+         /\ (J05 /\ E.t \in Types => E.size = TypeTable[E.t].size /\ E.lb = TypeTable[E.t].lb /\ E.nt = NullableOf(E.t))
+\* a value written as a fixed-length type and read as its nullable variant (what a server does with a
+\* parameter for a nullable column, and the other way round)
+T_XRT == /\ IsEvent("XRT") /\ E.t \in Types /\ E.nt \in Types /\ E.err = ""
+         /\ (J04 => Same(E.t, E.v, E.v2))
+         /\ (J05 => Rel(E.t, E.v, E.b) /\ Rel(E.nt, E.v2, E.b))
+\* what the library returns for NULL is written as NULL again (zero length)
+T_NullBack == /\ IsEvent("NullBack") /\ E.t \in Types /\ Nullable(E.t)
+              /\ (J04 => E.err = "" /\ E.b = <<>>)
+\* several data packages behind one format: every one keeps its own values
+T_Rows == /\ IsEvent("Rows") /\ E.t \in Types
+          /\ (J04 => /\ E.r = "ok" /\ Len(E.v2s) = Len(E.vs)
+                     /\ \A i \in 1..Len(E.vs) : Same(E.t, E.vs[i], E.v2s[i]))
+Next == T_Rows \/ T_NullBack \/ T_Reset \/ T_RT \/ T_Dec \/ T_Pkg \/ T_Cal \/ T_Tab \/ T_XRT
 Spec == Init /\ [][Next]_vars
 HW == HWOf(l)
 =============================================================================
